@@ -587,8 +587,20 @@ func c11One(mm map[uint64][]int) (uint64, bool) {
 func TestVerif_C11_Windows(t *testing.T) {
 	r := verifkit.Start(t, "C11", "windows")
 	defer r.Finish()
+	c11WindowsWorkload(t, r, r.N(400, 20000))
+}
+
+// TestVerif_C11_WindowsRace: the same scripts (a tenth of them) under the
+// race detector: the loops start goroutines (block waits that end the
+// announcement and the done check) that share the loop's state.
+func TestVerif_C11_WindowsRace(t *testing.T) {
+	r := verifkit.Start(t, "C11", "windows_race")
+	defer r.Finish()
+	c11WindowsWorkload(t, r, r.N(120, 2000))
+}
+
+func c11WindowsWorkload(t *testing.T, r *verifkit.Run, nCases int) {
 	r.SetRule("real signingRetryLoop.start / dkgRetryLoop.start for all 3..7 members of a group, each on its own virtual chain view driven by a PRNG script per member and iteration (current-block error, late notice of a block, announce error early/late, minority, majority without self, attempt duration up to and beyond the timeout, attempt/done-check failure or success, late start by 0..1000 blocks, loop stop block, and for iterations >= 2 an attempt function / signalDone / waitUntilAllDone that comes back more than two attempt spans late; injected waitForBlockFn errors with the context alive (the announcement-start wait, the wait that ends the announcement, the wait that ends the done check; any iteration, possibly several). On the unchanged tree a failed announcement-start wait makes the signing loop move on to the next attempt and makes the DKG loop abort (so for DKG the rule only bites on code that continues), a failed goroutine wait ends the derived context at once in both loops; the counters *_wait_faults_* say how many faults were followed by further attempts); start blocks {0,1,899,1e6,2^40,random}. non-trivial = the run observed >= 1 failed/skipped attempt or a late start")
-	nCases := r.N(400, 20000)
 	var loops, attemptsSeen, skipsChecked, overlapsChecked, nonuniform, lateDkg, decisions, lateReturns int64
 	var cmu sync.Mutex
 	faultCnt := map[string]int64{}
